@@ -15,22 +15,27 @@ that, and both are excluded by facts about the regenerated tables:
   mode table that has one of these codes is 257 bytes long.
 
 `switch_cases`: the case labels of the two `switch` statements (regenerated from the source) are
-exactly the ones the model has a branch for — the parser has all 43 codes, the tokenizer lacks
-`valPlus`, `openParen`, `closeParen` and the four C-comment codes (known findings of C03sen).
+exactly the ones the model has a branch for — the parser has all 43 codes, the tokenizer lacks only
+`valPlus`, `openParen`, `closeParen` (the four C-comment codes have a case since f233b47).
 
-`no_fault_without_plus` (sen.Parser profile): **every run-time fault of the machine is preceded by a `+`
-read in value position** — on an instance without a pending `+`, for every configuration, input and
-chunking, if a call ends in a fault (failed type assertion, index out of range, nil-map write, slice
-bounds) then the run went through the `valPlus` case before. Proof: the stack-shape invariant
-(`Sen.wf`: under every key lies a map; `starts` and the build stack agree; only finished values above an
-array placeholder and at depth 0) is kept by every case of the switch. `no_hang`: the no-progress
-outcome is unreachable. `never_faults_full_false`: without the exclusion the statement is false:
-`[1 + "x"]` faults (known finding C06sen-plus-panic; a proposed fix turns the faults into errors).
+`never_faults_current` (sen.Parser profile, the code as it is since 285bbf9 and ece2934): **the parser
+machine never ends in a run-time fault** — for every table set that passes `TablesOK`, every
+configuration, every state a previous call may have left, every input and chunking, a call never ends
+in a failed type assertion, an index out of range, a nil-map write or a slice-bounds fault. Proof: the
+stack-shape invariant (`Sen.wf`: under every key lies a map; `starts` and the build stack agree; only
+finished values above an array placeholder and at depth 0) is kept by every case of the switch, and
+`addString` after a `+` now answers "expected a string before '+'" where it used to assert.
+`addString_checked`: the regenerated count of one-valued type assertions in `(*Parser).addString` is 0
+(undoing 285bbf9 breaks this). `no_hang`: the no-progress outcome is unreachable.
+
+BEFORE the repair (`plusFault := true`, the old `addString` kept as `St.addStringPOld`):
+`no_fault_without_plus_before`: every fault is preceded by a `+` read in value position, and
+`never_faults_before_false`: `[1 + "x"]` does fault (finding C06sen-plus-panic, fixed by 285bbf9).
 
 That the Go code behaves like the model on malformed input is the correspondence run (every call under
-`recover` and a watchdog; the model's fault predictions are compared with the actual panics). The
-tokenizer profile is not covered by `no_fault_without_plus` (it has no build stack; its run-time faults,
-if any, would surface as error results through its `recover`, which the run checks for). -/
+`recover` and a watchdog; the model predicts no panic at all now). The tokenizer profile is not covered
+by `never_faults_current` (it has no build stack; its run-time faults, if any, would surface as error
+results through its `recover`, which the run checks for). -/
 namespace OjgVerif.C06sen
 open OjgVerif OjgVerif.Sen
 
@@ -96,34 +101,48 @@ def modelParserCases : List String :=
    "commentStart", "commentEnd", "ccommentStart", "ccommentEnd", "openParen", "closeParen", "charErr"]
 
 /-- the codes `sen.Tokenizer.tokenizeBuffer` has no `case` for (they fall through the switch) -/
-def tokenizerMissing : List String :=
-  ["cskipNewline", "cskipChar", "valPlus", "ccommentStart", "ccommentEnd", "openParen", "closeParen"]
+def tokenizerMissing : List String := ["valPlus", "openParen", "closeParen"]
 
-/-- the regenerated case labels are exactly what the model assumes -/
+/-- the regenerated case labels are exactly what the model assumes (the tokenizer's in any order: the
+C-comment cases were appended by f233b47; before it they were missing and this theorem fails) -/
 theorem switch_cases :
     Gen.SenFacts.parserCases = modelParserCases ∧
-    Gen.SenFacts.tokenizerCases = modelParserCases.filter (fun c => !tokenizerMissing.contains c) := by
+    Gen.SenFacts.tokenizerCases.Nodup ∧
+    (Gen.SenFacts.tokenizerCases.all fun c => modelParserCases.contains c) = true ∧
+    (modelParserCases.all fun c => Gen.SenFacts.tokenizerCases.contains c != tokenizerMissing.contains c) = true := by
   decide +kernel
+
+/-- `(*Parser).addString` has no panicking type assertion left (285bbf9) -/
+theorem addString_checked : Gen.SenFacts.addStringUnchecked = 0 := by decide
 
 /-- the model names 43 codes, one per Go constant of `sen/maps.go`, pairwise distinct -/
 theorem codes_complete : modelParserCases.length = codeList.length ∧ codeList.Nodup :=
   ⟨by decide, codes_distinct⟩
 
-/-! ## no run-time fault without `+`, no hang -/
+/-! ## no run-time fault, no hang -/
 
-/-- **C06 (SEN parser), partial form**: on an instance without a pending `+`, a call that ends in a
-run-time fault has read a `+` in value position before (mark `p`) — over every table set that passes
-`TablesOK`, every configuration, input and chunking -/
-theorem no_fault_without_plus {T : Tables} (hT : TablesOK T) (cfg : Cfg) (hc : cfg.tokenizer = false)
-    (prev : St) (hp : prev.plus = false) (chunks : List Bytes) (e : Err)
-    (h : call T cfg prev chunks = .error e) (w : String) (hw : e.kind = .fault w) : 'p' ∈ e.feat := by
+/-- the code as it is: `addString` checks what precedes a `+` (285bbf9), `plus` is reset at entry (ece2934) -/
+def Current (cfg : Cfg) : Prop := cfg.plusFault = false ∧ cfg.keepPlus = false
+
+theorem current_default : Current {} := ⟨rfl, rfl⟩
+
+/-- **C06 (SEN parser)**: the parser machine never ends in a run-time fault — over every table set that
+passes `TablesOK`, every configuration of the current code, every prior instance state, input and chunking -/
+theorem never_faults_current {T : Tables} (hT : TablesOK T) (cfg : Cfg) (hc : cfg.tokenizer = false)
+    (hcur : Current cfg) (prev : St) (chunks : List Bytes) (e : Err)
+    (h : call T cfg prev chunks = .error e) (w : String) : e.kind ≠ .fault w := by
   rw [call_eq_ref hT] at h
-  exact call_safe_ref cfg hc prev hp chunks e h w hw
+  intro hw
+  have := call_safe_ref cfg hc prev (fun hk => by rw [hcur.2] at hk; cases hk) chunks e h w hw
+  have h1 : cfg.plusFault = true := this.1
+  rw [hcur.1] at h1
+  cases h1
 
-/-- the same over the regenerated `sen/maps.go`, for a fresh parser -/
-theorem no_fault_without_plus_sen (cfg : Cfg) (hc : cfg.tokenizer = false) (chunks : List Bytes) (e : Err)
-    (h : run senTables cfg chunks = .error e) (w : String) (hw : e.kind = .fault w) : 'p' ∈ e.feat :=
-  no_fault_without_plus senTables_ok cfg hc {} rfl chunks e h w hw
+/-- the same over the regenerated `sen/maps.go` -/
+theorem never_faults_current_sen (cfg : Cfg) (hc : cfg.tokenizer = false) (hcur : Current cfg) (prev : St)
+    (chunks : List Bytes) (e : Err) (h : call senTables cfg prev chunks = .error e) (w : String) :
+    e.kind ≠ .fault w :=
+  never_faults_current senTables_ok cfg hc hcur prev chunks e h w
 
 /-- the parser machine never reaches the no-progress state -/
 theorem no_hang {T : Tables} (hT : TablesOK T) (cfg : Cfg) (hc : cfg.tokenizer = false)
@@ -131,20 +150,47 @@ theorem no_hang {T : Tables} (hT : TablesOK T) (cfg : Cfg) (hc : cfg.tokenizer =
   rw [call_eq_ref hT] at h
   exact call_noHang_ref cfg hc prev chunks e h
 
-/-- the model never faults, on any input -/
-def never_faults_full : Prop :=
-  ∀ (cfg : Cfg) (chunks : List Bytes),
+/-- the model never faults or hangs, on any input (stated for a configuration) -/
+def never_faults_full (cfg : Cfg) : Prop :=
+  ∀ (chunks : List Bytes),
     (match run refTables cfg chunks with | .error e => e.kind.isFault | .ok _ => false) = false
 
-/-- `[1 + "x"]`: the `+` branch of `addString` asserts that the previous value is a string -/
-theorem never_faults_full_false : ¬ never_faults_full := by
+/-- the full statement holds for the code as it is -/
+theorem never_faults_full_current : never_faults_full {} := by
+  intro chunks
+  cases h : run refTables {} chunks with
+  | ok o => rfl
+  | error e =>
+    simp only []
+    cases hk : e.kind with
+    | fault w => exact absurd hk (never_faults_current ⟨fun _ _ => rfl, fun _ => rfl, fun _ _ => rfl⟩ {} rfl current_default {} chunks e h w)
+    | hang => exact absurd hk (call_noHang_ref {} rfl {} chunks e h)
+    | _ => simp [ErrKind.isFault]
+
+/-- the witness of the old finding is an ordinary error now -/
+example : (match run senTables {} [[91, 49, 32, 43, 32, 34, 120, 34, 93]] with
+    | .error e => e.kind == .plusNoString | .ok _ => false) = true := by decide +kernel
+
+/-! ### before 285bbf9 -/
+
+/-- BEFORE 285bbf9 (any configuration): on an instance without a pending `+`, a call that ends in a
+run-time fault has read a `+` in value position before (mark `p`) -/
+theorem no_fault_without_plus_before {T : Tables} (hT : TablesOK T) (cfg : Cfg) (hc : cfg.tokenizer = false)
+    (prev : St) (hp : prev.plus = false) (chunks : List Bytes) (e : Err)
+    (h : call T cfg prev chunks = .error e) (w : String) (hw : e.kind = .fault w) : 'p' ∈ e.feat := by
+  rw [call_eq_ref hT] at h
+  exact (call_safe_ref cfg hc prev (fun _ => hp) chunks e h w hw).2
+
+/-- BEFORE 285bbf9 `[1 + "x"]` faulted: the `+` branch of `addString` asserted that the previous value
+is a string (finding C06sen-plus-panic) -/
+theorem never_faults_before_false : ¬ never_faults_full { plusFault := true } := by
   intro h
-  have := h {} [[91, 49, 32, 43, 32, 34, 120, 34, 93]]
+  have := h [[91, 49, 32, 43, 32, 34, 120, 34, 93]]
   revert this
   decide +kernel
 
-/-- non-vacuity of `no_fault_without_plus`: the run on `[1 + "x"]` does end in a fault, and carries the mark -/
-example : (match run senTables {} [[91, 49, 32, 43, 32, 34, 120, 34, 93]] with
+/-- and that run carried the mark -/
+example : (match run senTables { plusFault := true } [[91, 49, 32, 43, 32, 34, 120, 34, 93]] with
     | .error e => e.kind.isFault && e.feat.contains 'p' | .ok _ => false) = true := by decide +kernel
 
 end OjgVerif.C06sen
